@@ -70,6 +70,9 @@ func newEventFromUntrustedJSONV3(eventJSON []byte, roomVersion IRoomVersion) (PD
 	if err := checkNoDuplicateKeys(eventJSON); err != nil {
 		return nil, BadJSONError{err}
 	}
+	if err := checkContentKeys(eventJSON); err != nil {
+		return nil, BadJSONError{err}
+	}
 	if err := checkSignaturesShape(eventJSON); err != nil {
 		return nil, err
 	}
